@@ -398,13 +398,39 @@ class Interp:
         return 0
 
     def b_echo(self, args):
+        # leading arguments of the form -[neE]+ are options (bash builtin, xpg_echo off)
+        args = list(args)
+        newline = True
+        escapes = False
+        while args:
+            a = args[0]
+            if isinstance(a, str):
+                if len(a) >= 2 and a[0] == '-' and all(c in 'neE' for c in a[1:]):
+                    for c in a[1:]:
+                        if c == 'n':
+                            newline = False
+                        elif c == 'e':
+                            escapes = True
+                        else:
+                            escapes = False
+                    args.pop(0)
+                    continue
+                break
+            if is_sym(a) and self.decide(sym.over_lengths(sym.words_of(a), lambda asg: (lambda cs: sym.conj(
+                    [len(cs) >= 2] + ([sym.char_eq(cs[0], '-')] + [sym.disj([sym.char_eq(c, o) for o in 'neE']) for c in cs[1:]]
+                                      if len(cs) >= 2 else [])))(sym.expand(a, asg)))):
+                raise Unsupported('echo of a symbolic word that is an echo option')
+            break
+        if escapes and any((not isinstance(a, str)) or '\\' in a for a in args):
+            raise Unsupported('echo -e with backslashes')
         parts = []
         for i, a in enumerate(args):
             if i:
                 parts.append(' ')
             parts.append(a)
-        parts.append('\n')
-        v = concat(*parts)
+        if newline:
+            parts.append('\n')
+        v = concat(*parts) if parts else ''
         self.out(v)
         return 0
 
@@ -457,24 +483,78 @@ class Interp:
 
     def b_read(self, args):
         names = [a for a in args if a != '-r']
+        raw = '-r' in args
         if not self.stdin or not self.stdin[-1]:
             return 1
         line = self.stdin[-1].pop(0)
+        if not isinstance(line, str):
+            raise Unsupported('read of a symbolic line')
         ifs = getattr(self, 'temp_ifs', None)
         if ifs is None:
             ifs = ' \t\n'
-        s = line.strip(ifs)
+        # characters with an "escaped" flag: without -r a backslash quotes the next character (which then never
+        # splits) and a backslash at the end of the line continues it with the next line
+        chars = []
+        if raw:
+            chars = [(c, False) for c in line]
+        else:
+            k = 0
+            while True:
+                if k >= len(line):
+                    break
+                c = line[k]
+                if c == '\\':
+                    if k + 1 < len(line):
+                        chars.append((line[k + 1], True))
+                        k += 2
+                        continue
+                    # continuation
+                    if self.stdin[-1]:
+                        line = self.stdin[-1].pop(0)
+                        if not isinstance(line, str):
+                            raise Unsupported('read of a symbolic line')
+                        k = 0
+                        continue
+                    break
+                chars.append((c, False))
+                k += 1
+        ifs_ws = [c for c in ifs if c in ' \t\n']
+
+        def is_sep(x):
+            return (not x[1]) and x[0] in ifs
+
+        def is_ws(x):
+            return (not x[1]) and x[0] in ifs_ws
+
+        def lstrip_ws(cs):
+            k = 0
+            while k < len(cs) and is_ws(cs[k]):
+                k += 1
+            return cs[k:]
+
+        def rstrip_ws(cs):
+            k = len(cs)
+            while k > 0 and is_ws(cs[k - 1]):
+                k -= 1
+            return cs[:k]
+        cs = rstrip_ws(lstrip_ws(chars))
         vals = []
         for i, nm in enumerate(names):
             if i == len(names) - 1:
-                vals.append(s.rstrip(ifs))
-                s = ''
+                vals.append(''.join(c for c, _ in cs))
+                cs = []
             else:
-                j = 0
-                while j < len(s) and s[j] not in ifs:
-                    j += 1
-                vals.append(s[:j])
-                s = s[j:].lstrip(ifs)
+                k = 0
+                while k < len(cs) and not is_sep(cs[k]):
+                    k += 1
+                vals.append(''.join(c for c, _ in cs[:k]))
+                rest = lstrip_ws(cs[k:])
+                if k < len(cs) and not is_ws(cs[k]):
+                    # a non-whitespace separator: it alone (with surrounding IFS whitespace) delimits
+                    rest = lstrip_ws(cs[k + 1:])
+                elif rest and is_sep(rest[0]) and not is_ws(rest[0]):
+                    rest = lstrip_ws(rest[1:])
+                cs = rest
         for nm, v in zip(names, vals):
             self.set_scalar(nm, v)
         return 0
